@@ -392,7 +392,8 @@ def module_job(arg):
                     col.add(_chk.make_case(
                         modname, 'validate', [v], _chk.fmt_outcome(o),
                         'ValidationError: check character %d of the valid number %r replaced by %r' % (i, n, c),
-                        _chk.value_site(modname, 'validate', 'other-check-character-accepted'),
+                        _chk.value_site(modname, 'validate', 'other-check-character-accepted-whitelisted-number'
+                                        if v in getattr(mod, 'whitelist', ()) else 'other-check-character-accepted'),
                         'b: other check character must be rejected', kwargs=kw, number=n, projection=p))
 
     # (a) on the corpus
